@@ -307,10 +307,15 @@ func (e *Engine) bindContract(c *Contract) error {
 		if m == nil {
 			return fmt.Errorf("%s:%d: bad interface method reference %q", c.File, c.Line, c.Ref)
 		}
-		e.ifaceCt[c.PkgPath+"."+m[1]+"."+m[2]] = c
 		tn := e.tpkgs[c.PkgPath].Scope().Lookup(m[1])
 		if tn == nil {
-			return fmt.Errorf("%s:%d: interface %s not found", c.File, c.Line, m[1])
+			tn = types.Universe.Lookup(m[1]) // error
+			if tn == nil {
+				return fmt.Errorf("%s:%d: interface %s not found", c.File, c.Line, m[1])
+			}
+			e.ifaceCt[m[1]+"."+m[2]] = c
+		} else {
+			e.ifaceCt[c.PkgPath+"."+m[1]+"."+m[2]] = c
 		}
 		it, ok := tn.Type().Underlying().(*types.Interface)
 		if !ok {
